@@ -206,6 +206,11 @@ def run(spec):
                 # assigned in the parent's __init__; jedi statically prefers the attribute
                 anc_key = 'c10:attribute_preferred_over_imported_ancestor_package'
         if truth[0] == 'module':
+            gmods = sorted({str(d.module_path) for d in gdefs if d.type == 'module' and d.module_path})
+            if not anc_key and gmods != [truth[1]]:
+                rec.violate('c10:goto_wrong_module', 'Python loads %s, goto(follow_imports=True) lands in '
+                            '%s' % (truth[1], [(d.type, d.name, str(d.module_path)) for d in gdefs]), **w)
+        if truth[0] == 'module':
             resolved += 1
             if mods != [truth[1]] or vals or nss:
                 rec.violate(anc_key or 'c10:wrong_module', 'Python loads %s, jedi infers %s' % (truth[1], got), **w)
